@@ -230,6 +230,8 @@ def runner(rep, tier, seed, replay):
         strata.setdefault(key, []).append(i)
     keys = list(strata)
     rnd.shuffle(keys)
+    # the end of the line is where the entry points differ most (trimming, continuation lines): those strata go first
+    keys.sort(key=lambda k: 0 if (k[0] == "C01" and k[2] == "last" and k[3] == "end") else 1)
     for k in keys:
         rnd.shuffle(strata[k])
     # generators other than C01 first get an equal share, C01 (by far the largest) the rest
